@@ -31,7 +31,7 @@ VERIFICATION_MSGS = (
     'constructed value may fail to meet its declared type invariant', 'opens_invariants',
     'cannot show invariant', 'at the end of the loop body', 'before the loop', 'may fail',
     'split assertion failure', 'split precondition failure', 'split postcondition failure',
-    'failed this', 'not satisfied', 'cannot prove',
+    'failed this', 'not satisfied', 'cannot prove', 'unable to prove', 'might not', 'might fail', 'fails to satisfy',
 )
 UNDECIDED_MSGS = ('rlimit', 'resource limit', 'timed out', 'Verus Internal Error', 'not supported',
                   'does not yet support', 'panicked')
@@ -258,4 +258,4 @@ def run_unit(unit, tmpl, seed=0, rlimit=None, needs_ast=False, threads=4, extra_
 
 if __name__ == '__main__':
     r = run_unit(sys.argv[1], sys.argv[2], needs_ast='--ast' in sys.argv)
-    print(json.dumps({k: v for k, v in r.items() if k not in ('items',)}, indent=1)[:6000])
+    print(json.dumps({k: v for k, v in r.items() if k not in ('items',)}, indent=1))
